@@ -344,11 +344,16 @@ func TestVerifC02Server(t *testing.T) {
 		lv, ok := c02StartLive(m, "sc", cfg, []c02Group{
 			{Class: "rtlate", Method: http.MethodGet, N: 3, Timeout: short},
 			{Class: "fast", Method: http.MethodGet, N: 1},
+			{Class: "pv", Method: http.MethodGet, N: c02PanicAlphabetRoutes},
 		})
 		if !ok {
 			return
 		}
 		rr := m.Rand("C")
+		// RecoverHandler alone (no timeout handler on these routes), fresh connections
+		if !c02ScPanicAlphabet(c, lv.e, lv.doer(lv.fresh), lv.e.routes["pv"], m.Rand("C", "pv")) {
+			return
+		}
 		if !c02LiveLate(c, lv, lv.e.routes["rtlate"], rr, "late:route-timeout-only", fmt.Sprintf("server without Config.Timeout, route WithTimeout(%v)", short)) {
 			return
 		}
@@ -374,6 +379,7 @@ func TestVerifC02Server(t *testing.T) {
 			{Class: "bytes", Method: http.MethodPost, N: 1},
 			{Class: "keep", Method: http.MethodGet, N: 2},
 			{Class: "keeplate", Method: http.MethodGet, N: 2, Timeout: short},
+			{Class: "pv", Method: http.MethodGet, N: c02PanicAlphabetRoutes},
 		})
 		if !ok {
 			return
@@ -426,6 +432,9 @@ func TestVerifC02Server(t *testing.T) {
 					return
 				}
 			}
+		})
+		sub("pv", func(r *rand.Rand) { // timeout + recover chain
+			c02ScPanicAlphabet(c, lv.e, fresh, lv.e.routes["pv"], r)
 		})
 		sub("conns", func(r *rand.Rand) {
 			c02ScMaxConns(c, lv.e, fresh, lv.e.routes["conns"][0], nMax, 1+r.Intn(3), r)
